@@ -10,14 +10,65 @@ import BigtoolsModel.ZoomLevels
 import BigtoolsModel.AtomsNorm
 namespace Tiler2
 
+/-- a fresh zoom record as the source's record literal builds it (`start`, `end`, `bases_covered`, `min_val`, `max_val`;
+    `sum: 0.0` is a float literal the translator does not read) -/
+def newRecWith (nStart nEnd nBases nMin nMax : Int → Int → Int → Int → Int → Int) (a : Nat) (v : Int) : Rec :=
+  { start := (nStart 0 v 0 0 a).toNat, stop := (nEnd 0 v 0 0 a).toNat, bases := (nBases 0 v 0 0 a).toNat, sum := 0,
+    mn := nMin 0 v 0 0 a, mx := nMax 0 v 0 0 a }
+
+/-- the statistics a value adds to the live record, with the source's expressions -/
+def addWith (bases sum mn mx : Int → Int → Int → Int → Int → Int) (r : Rec) (stop added : Nat) (v : Int) (a : Nat) : Rec :=
+  { r with stop := stop, bases := r.bases + (bases added v r.mn r.mx a).toNat, sum := r.sum + sum added v r.mn r.mx a,
+           mn := mn added v r.mn r.mx a, mx := mx added v r.mn r.mx a }
+
+/-- what the proofs need of the statistics expressions: each is the model's -/
+structure StatAtoms (bases items sum sumsq mn mx nStart nEnd nMin nMax nBases : Int → Int → Int → Int → Int → Int) : Prop where
+  bases_eq : ∀ n v a b s, bases n v a b s = n
+  items_eq : ∀ n v a b s, items n v a b s = 1
+  sum_eq : ∀ n v a b s, sum n v a b s = n * v
+  sumsq_eq : ∀ n v a b s, sumsq n v a b s = n * v * v
+  mn_eq : ∀ n v a b s, mn n v a b s = min a v
+  mx_eq : ∀ n v a b s, mx n v a b s = max b v
+  nStart_eq : ∀ n v a b s, nStart n v a b s = s
+  nEnd_eq : ∀ n v a b s, nEnd n v a b s = s
+  nMin_eq : ∀ n v a b s, nMin n v a b s = v
+  nMax_eq : ∀ n v a b s, nMax n v a b s = v
+  nBases_eq : ∀ n v a b s, nBases n v a b s = 0
+
+theorem gen_wig_stat_atoms : StatAtoms Gen.wzs_bases_add Gen.wzs_items_add Gen.wzs_sum_add Gen.wzs_sumsq_add Gen.wzs_min Gen.wzs_max
+    Gen.wzs_new_start Gen.wzs_new_end Gen.wzs_new_min Gen.wzs_new_max Gen.wzs_new_bases := by
+  constructor <;> intros <;>
+    delta Gen.wzs_bases_add Gen.wzs_items_add Gen.wzs_sum_add Gen.wzs_sumsq_add Gen.wzs_min Gen.wzs_max Gen.wzs_new_start
+      Gen.wzs_new_end Gen.wzs_new_min Gen.wzs_new_max Gen.wzs_new_bases <;>
+    first | rfl | omega | grind
+
+theorem gen_bed_stat_atoms : StatAtoms Gen.bzs2_bases_add Gen.bzs2_items_add Gen.bzs2_sum_add Gen.bzs2_sumsq_add Gen.bzs2_min Gen.bzs2_max
+    Gen.bzs2_new_start Gen.bzs2_new_end Gen.bzs2_new_min Gen.bzs2_new_max Gen.bzs2_new_bases := by
+  constructor <;> intros <;>
+    delta Gen.bzs2_bases_add Gen.bzs2_items_add Gen.bzs2_sum_add Gen.bzs2_sumsq_add Gen.bzs2_min Gen.bzs2_max Gen.bzs2_new_start
+      Gen.bzs2_new_end Gen.bzs2_new_min Gen.bzs2_new_max Gen.bzs2_new_bases <;>
+    first | rfl | omega | grind
+
+theorem newRecWith_eq {bases items sum sumsq mn mx nStart nEnd nMin nMax nBases : Int → Int → Int → Int → Int → Int}
+    (h : StatAtoms bases items sum sumsq mn mx nStart nEnd nMin nMax nBases) (a : Nat) (v : Int) :
+    newRecWith nStart nEnd nBases nMin nMax a v = newRec a v := by
+  unfold newRecWith newRec
+  simp [h.nStart_eq, h.nEnd_eq, h.nMin_eq, h.nMax_eq, h.nBases_eq]
+
+theorem addWith_eq {bases items sum sumsq mn mx nStart nEnd nMin nMax nBases : Int → Int → Int → Int → Int → Int}
+    (h : StatAtoms bases items sum sumsq mn mx nStart nEnd nMin nMax nBases) (r : Rec) (stop added : Nat) (v : Int) (a : Nat) :
+    addWith bases sum mn mx r stop added v a =
+      { r with stop := stop, bases := r.bases + added, sum := r.sum + (added : Int) * v, mn := min r.mn v, mx := max r.mx v } := by
+  unfold addWith
+  simp [h.bases_eq, h.sum_eq, h.mn_eq, h.mx_eq]
+
 /-- one pass through the body of the bigWig tiler's `loop`, assembled from the source's expressions -/
 def iterGen (size : Nat) (x : Val) (a : Nat) (st : TSt) : Nat × TSt :=
-  let r := st.live.getD (newRec a x.v)
+  let r := st.live.getD (newRecWith Gen.wzs_new_start Gen.wzs_new_end Gen.wzs_new_bases Gen.wzs_new_min Gen.wzs_new_max a x.v)
   let nextEnd := Gen.wz_next_end r.start size
   let addEnd := Gen.wz_add_end nextEnd x.e
   let r' : Rec := if Gen.wz_update addEnd a then
-      { r with stop := addEnd, bases := r.bases + Gen.wz_added addEnd a,
-               sum := r.sum + ((Gen.wz_added addEnd a : Nat) : Int) * x.v, mn := min r.mn x.v, mx := max r.mx x.v }
+      addWith Gen.wzs_bases_add Gen.wzs_sum_add Gen.wzs_min Gen.wzs_max r addEnd (Gen.wz_added addEnd a) x.v a
     else r
   let st' : TSt := if Gen.wz_close addEnd nextEnd then { live := none, out := st.out ++ [r'] }
                    else { live := some r', out := st.out }
@@ -25,12 +76,11 @@ def iterGen (size : Nat) (x : Val) (a : Nat) (st : TSt) : Nat × TSt :=
 
 /-- the same for the bigBed tiler (the piece `[x.s, x.e)` of coverage depth `x.v` the sweep hands over) -/
 def iterGenBed (size : Nat) (x : Val) (a : Nat) (st : TSt) : Nat × TSt :=
-  let r := st.live.getD (newRec a x.v)
+  let r := st.live.getD (newRecWith Gen.bzs2_new_start Gen.bzs2_new_end Gen.bzs2_new_bases Gen.bzs2_new_min Gen.bzs2_new_max a x.v)
   let nextEnd := Gen.bz_next_end r.start size
   let addEnd := Gen.bz_add_end nextEnd x.e
   let r' : Rec := if Gen.bz_update addEnd a then
-      { r with stop := addEnd, bases := r.bases + Gen.bz_added addEnd a,
-               sum := r.sum + ((Gen.bz_added addEnd a : Nat) : Int) * x.v, mn := min r.mn x.v, mx := max r.mx x.v }
+      addWith Gen.bzs2_bases_add Gen.bzs2_sum_add Gen.bzs2_min Gen.bzs2_max r addEnd (Gen.bz_added addEnd a) x.v a
     else r
   let st' : TSt := if Gen.bz_close addEnd nextEnd then { live := none, out := st.out ++ [r'] }
                    else { live := some r', out := st.out }
@@ -77,7 +127,7 @@ theorem gen_wig_tiler_iter (size : Nat) (x : Val) (a : Nat) (st : TSt) :
     iterGen size x a st = iter repaired size x a st := by
   obtain ⟨_, h2, h3, h4, h5, h6, h7⟩ := gen_wig_atoms
   unfold iterGen iter
-  simp only [h2, h3, h4, h6, h7, repaired, if_true]
+  simp only [newRecWith_eq gen_wig_stat_atoms, addWith_eq gen_wig_stat_atoms, h2, h3, h4, h6, h7, repaired, if_true]
   by_cases hu : min ((st.live.getD (newRec a x.v)).start + size) x.e > a
   · have := h5 _ _ ((h4 _ _).trans (decide_eq_true hu))
     simp only [this, hu, decide_true, if_true, decide_eq_true_eq]
@@ -88,7 +138,7 @@ theorem gen_bed_tiler_iter (size : Nat) (x : Val) (a : Nat) (st : TSt) :
     iterGenBed size x a st = iter repaired size x a st := by
   obtain ⟨_, h2, h3, h4, h5, h6, h7⟩ := gen_bed_atoms
   unfold iterGenBed iter
-  simp only [h2, h3, h4, h6, h7, repaired, if_true]
+  simp only [newRecWith_eq gen_bed_stat_atoms, addWith_eq gen_bed_stat_atoms, h2, h3, h4, h6, h7, repaired, if_true]
   by_cases hu : min ((st.live.getD (newRec a x.v)).start + size) x.e > a
   · have := h5 _ _ ((h4 _ _).trans (decide_eq_true hu))
     simp only [this, hu, decide_true, if_true, decide_eq_true_eq]
